@@ -3,13 +3,21 @@ C13 — only one process at a time has the database open.
 
 Model: `Jamm/Model/Proc.lean` (open the path, creating an empty file if there is none; blocking exclusive
 advisory lock; initialise the file under the lock if it is still empty; map, read header, work, close),
-any number of processes, every interleaving of their steps.
+any number of processes, every interleaving of their steps.  The file is missing, empty (length 0),
+garbage (not empty, no valid header -- e.g. left by a process that died while initialising it) or ready
+(valid header pages).  The model can express failure: as in `DBInner::open`, only an EMPTY file is
+initialised; the opener of a garbage file fails and drops its handle, and the file is left as it is.
 Proved:
 * (a) at most one process is between lock-acquired and close, and whoever is inside has seen every
-  commit made before it got in — for every initial file state and every schedule (`mutual_exclusion`);
-* (b, c) no process ever fails, for every initial file state (missing, created but empty, initialised) and
-  every schedule (`no_opener_ever_fails`; `existing_file_never_fails` is the case of an initialised file);
-  whoever is inside sees an initialised file (`inside_sees_initialised_file`); the file is locked before it
+  commit made before it got in -- for every initial file state, garbage included, and every schedule
+  (`mutual_exclusion`);
+* (b, c) no process ever fails, for every initial file state other than garbage (missing, empty, ready)
+  and every schedule (`no_opener_ever_fails`; `existing_file_never_fails` is the case of an initialised
+  file); the hypothesis is needed: a file that is not empty and holds no valid header makes its opener
+  fail, and it is never overwritten, under every schedule
+  (`unreadable_file_is_reported_not_overwritten`);
+  whoever is inside sees an initialised file, for every initial file state
+  (`inside_sees_initialised_file`); the file is locked before it
   is mapped or read (`existing_open_locks_first`, decided on the regenerated step order);
 * the former finding D12 is REPAIRED: the path is opened with create-if-missing and never tested for
   existence first (`open_outer_order`), and the lock is taken before a missing / empty file is initialised
@@ -35,10 +43,21 @@ theorem existing_file_never_fails (n : Nat) (sched : List Nat) :
     ((ProcSys.initial n .ready).run sched).noFailure = true :=
   existing_file_no_failure n sched
 
-/-- whatever the initial file state (missing, created but empty, initialised), no opener ever fails -/
-theorem no_opener_ever_fails (n : Nat) (file : FileSt) (sched : List Nat) :
+/-- when the initial file is missing, empty or initialised, no opener ever fails.  The hypothesis
+`file ≠ .garbage` is needed: the opener of a non-empty file without a valid header does fail
+(`unreadable_file_is_reported_not_overwritten`); what is proved is that no step of the protocol produces
+such a file and that finding one is the only way to fail. -/
+theorem no_opener_ever_fails (n : Nat) (file : FileSt) (hf : file ≠ .garbage) (sched : List Nat) :
     ((ProcSys.initial n file).run sched).noFailure = true :=
-  never_fails n file sched
+  never_fails n file hf sched
+
+/-- a non-empty file without a valid header: its opener fails (a single process: open, lock, read the
+header), and under every schedule of any number of processes the file is left as it is -- the code never
+initialises a file that is not empty -/
+theorem unreadable_file_is_reported_not_overwritten :
+    ((ProcSys.initial 1 .garbage).run [0, 0, 0]).noFailure = false ∧
+    ∀ (n : Nat) (sched : List Nat), ((ProcSys.initial n .garbage).run sched).file = .garbage :=
+  ⟨garbage_file_fails, garbage_never_initialised⟩
 
 /-- whoever is inside the database sees an initialised file -/
 theorem inside_sees_initialised_file (n : Nat) (file : FileSt) (sched : List Nat) :
